@@ -2,7 +2,7 @@
    Proofs/GraphP*.v. *)
 From Coq Require Import ZArith Bool List.
 Import ListNotations.
-From Verif Require Import Model.Val Model.Graph Gen.Src_Graph Proofs.GraphPBridge Proofs.GraphPBase Proofs.GraphPDfs Proofs.GraphPTopo Proofs.GraphPDep Proofs.GraphPBfs Proofs.GraphPLong Proofs.GraphPEx Proofs.GraphPMon Proofs.GraphPRm.
+From Verif Require Import Model.Val Model.Graph Gen.Src_Graph Proofs.GraphPBridge Proofs.GraphPBase Proofs.GraphPDfs Proofs.GraphPTopo Proofs.GraphPDep Proofs.GraphPBfs Proofs.GraphPLong Proofs.GraphPEx Proofs.GraphPMon Proofs.GraphPRm Proofs.GraphPBfsFrom.
 Open Scope Z_scope.
 
 (* every graph the constructor can build is well-formed; the constructor never raises *)
@@ -262,3 +262,11 @@ Theorem C17_bridge_structure :
   Src_Graph.topo_reversed = true /\ Src_Graph.dfs_pops_right_and_skips_visited = true /\ Src_Graph.bfs_pops_left_and_needs_all_parents = true.
 Proof. exact bridge_structure. Qed.
 Print Assumptions C17_bridge_structure.
+
+(* breadth_first(node), PARTIAL: everything it yields (also when it ends with an exception) is reachable from
+   the start node.  Missing: "each node once" is not proved; "every reachable node is yielded" is refuted above
+   (C17_bfs_from_node_reachable_refuted). *)
+Theorem C17_bfs_from_node_sound_partial : forall fuel g n l st,
+  breadth_first_fuel fuel g (Some n) = (l, st) -> forall x, In x l -> reach g n x.
+Proof. exact bfs_from_node_sound_partial. Qed.
+Print Assumptions C17_bfs_from_node_sound_partial.
